@@ -31,6 +31,7 @@ def units(tier):
     u.append(("c_vs_py", "tric2", "211", False, False))
     u.append(("c_vs_py", "tric2", "211", True, True))
     u.append(("c_vs_py", "bccI", "211", True, True))
+    u.append(("c_vs_py", "nacl8i", "111", True, False)); u.append(("c_vs_py", "nacl8i", "111", True, True))
     for gid, sid, lv in [("sc1", "311", "x1"), ("tric2", "211", "x1"), ("cscl", "311", "x1"), ("bccI", "211", "x1"),
                          ("tric2", "nd4", "xy1")]:
         u.append(("fourier", gid, sid, True, False, lv))
